@@ -1,4 +1,4 @@
-import CattrsModel.Heap.Tagged
+import CattrsModel.Heap.TaggedC
 import CattrsModel.Conv.Driver
 /-!
 # Line-protocol operations of the heap model (driver only)
@@ -100,7 +100,7 @@ def heapHandle (op : String) (args : List Sexp) : Option Sexp :=
       if dir == "un" then
         match o with
         | .inst c _ => if !conf w (.cls c) o then some (.atom "unmodelled")
-                       else some (describe w o (runTagged w hc fuelD tg false) none)
+                       else some (describe w o (runTaggedC w hc (fuelD + 1) tg false) none)
         | _ => some (.atom "unmodelled")
       else if dir == "st" then
         match o with
@@ -110,7 +110,7 @@ def heapHandle (op : String) (args : List Sexp) : Option Sexp :=
           if tg.members.any (fun m => unmodelledST w cfg (.cls m.1) o')
               || (match tg.dflt with | some d => unmodelledST w cfg (.cls d) o' | none => false)
           then some (.atom "unmodelled")
-          else some (describe w o (runTagged w hc fuelD tg true) none)
+          else some (describe w o (runTaggedC w hc (fuelD + 1) tg true) none)
         | _ => some (.atom "unmodelled")
       else none
   | _, _ => none
